@@ -44,7 +44,7 @@ def required(tier):
 
 def gen_cases(seed, tier):
     rng = np.random.default_rng([seed, 16])
-    n = 640 if tier == 'quick' else 16000
+    n = 640 if tier == 'quick' else 32000
     cases = []
     for i in range(n):
         kind = KINDS[i % len(KINDS)]
@@ -81,6 +81,10 @@ def gen_cases(seed, tier):
                  sub=int(rng.integers(2 ** 31)))
         if kind == 'line':
             c['line_points'] = [int(x) for x in rng.integers(0, 70, size=3 if tier == 'quick' else 12)]
+            if tier == 'thorough' and (i // len(KINDS)) % 4 == 0:
+                # exhaustive: a failpoint at EVERY executed statement of Frame.add_signal, for every frame of the cadence
+                c['line_points'] = list(range(0, 110))
+                c['line_exhaustive'] = True
         if kind == 'normal_subset':
             c['subset'] = common.pick(rng, ['slice', 'list', 'label'])
         cases.append(c)
@@ -387,6 +391,9 @@ def _run(stg, c, R, mon):
                     R.bucket('fault-raised')
                     nontriv = True
                 R.check(raised == state['fired'], 'line-failpoint-swallowed', frame=k, event=ev)
+                if not state['fired'] and c.get('line_exhaustive'):
+                    R.count('line_exhaustive_frames_completed')
+                    break                      # fewer statements executed than ev: every statement of this frame has been hit
                 _check_after(dict(c, repeats=1), R, mon, None, tag=f'line{ev}@{k}')
     elif c['kind'] == 'natural':
         # array time profile whose length fits only the leading frame(s)
